@@ -163,6 +163,30 @@ def run(report, tier, parts, select, label, cfg="on", floors_key=None):
                                       "rests on what callers pass and must be argued again" % (
                                           bad[0][:200], "; ".join(a[:90] for a in allowed[:3]), triage[key].get("reason", "")[:120]),
                               "call": bad, "recorded": allowed}
+    # -- suppliers: functions whose result establishes the invariant an entry rests on ----------------------------
+    nsup = 0
+    for key in positions:
+        sup = triage[key].get("suppliers")
+        if not sup:
+            continue
+        if mir is None:
+            mir = engine_fp.Mir()
+        for srx, recorded in sup.items():
+            n, cur = mir.body_fingerprint(srx)
+            nsup += 1
+            if n == 1 and cur == recorded:
+                continue
+            k = "A|" + key + "|supplier changed"
+            ex = sorted(pos_example[(key, p)] for p in positions[key] if (key, p) in pos_example)
+            viol_roots[k].extend(x[0] for x in ex[:8])
+            diff = sorted(set(cur) ^ set(recorded))
+            viol_detail[k] = {"what": "the entry's reason (%s) rests on what `%s` guarantees about its result, and the "
+                                      "decision structure of that function is not the one the entry was argued for "
+                                      "(%s): the infeasibility argument must be made again" % (
+                                          triage[key].get("reason", "")[:120], srx.strip("^$"),
+                                          ("%d functions match" % n) if n != 1 else "; ".join(d[:70] for d in diff[:3])),
+                              "supplier": srx, "differences": diff[:20]}
+    stats["supplier_fingerprints"] = nsup
     stats["caller_renderings"] = ncallers
     for k, roots in viol_roots.items():
         d = dict(viol_detail[k])
@@ -194,7 +218,7 @@ def run(report, tier, parts, select, label, cfg="on", floors_key=None):
         "triaged_infeasible": stats["triaged"], "violating_sites": stats["violation"],
         "distinct_table_keys_hit": len(positions), "controls_passed": nctl,
         "allow_listed_constructs_fingerprinted": stats["fp_located"], "allow_listed_constructs_not_located": stats["fp_unlocated"],
-        "caller_renderings_compared": stats["caller_renderings"],
+        "caller_renderings_compared": stats["caller_renderings"], "supplier_fingerprints_compared": stats["supplier_fingerprints"],
         "crates": len(crates), "unanalysed": unanalysed[:20], "unanalysed_count": len(unanalysed),
         "library_callees": dict(lib_seen), "roots_with_indirect_calls": stats["roots_with_indirect_calls"],
         "samples": samples, "floor": want,
